@@ -72,9 +72,9 @@ Qed.
 Print Assumptions c01_core_runs_as_ecmascript.
 
 (* the premises are satisfiable: a model of the doubles without NaN (the
-   integers) meets the comparison laws, and under it a program with a loop, a
-   conditional, shadowing block scopes, short-circuit, compound and logical
-   assignment is accepted, has an outcome in the source semantics, and the
+   integers) meets the comparison laws, and under it a program with a loop left by break and
+   shortened by continue from inside nested blocks, a conditional, shadowing
+   block scopes, short-circuit, compound and logical assignment is accepted, has an outcome in the source semantics, and the
    machine produces it *)
 Definition wv (x : string) : expr binop unop := EVar _ _ x.
 Definition wi (z : Z) : expr binop unop := ELit _ _ (LInt z).
@@ -83,6 +83,8 @@ Definition witness_body : list (stmt binop unop) :=
    SWhile _ _ (EBin _ _ Lt (wv "x") (wi 10))
      (SBlock _ _ [SDecl _ _ true "k" (wi 2);
                   SExpr _ _ (ECompound _ _ Add "x" (wv "k"));
+                  SIf _ _ (EBin _ _ StrictEq (wv "x") (wi 5)) (SBlock _ _ [SDecl _ _ true "k" (wi 0); SContinue _ _]) None;
+                  SIf _ _ (EBin _ _ Gt (wv "x") (wi 8)) (SBreak _ _) None;
                   SIf _ _ (ELog _ _ LAnd (EBin _ _ Gt (wv "x") (wi 5)) (wv "k"))
                       (SExpr _ _ (ELogAssign _ _ LOr "k" (wi 7)))
                       (Some (SExpr _ _ (EAssign _ _ "k" (ECond _ _ (wv "x") (wi 3) (wi 4)))))])].
@@ -97,9 +99,9 @@ Theorem c01_core_witness :
   (forall x y, Z.ltb x y = true -> false = false /\ false = false) /\
   (forall x y : Z, (Z.ltb x y || Z.eqb x y) = negb (Z.ltb y x)) /\
   (forall x y, Z.ltb x y = true -> Z.eqb x y = false) /\
-  exists C en, ccompile binop unop witness_body witness_final = Some C /\ length C = 39 /\
-               z_es_run 100 witness_body witness_final = Some (OValue _ (PNum Z 311%Z) en) /\
-               z_machine 1000 C (machine_init Z) = Some (OValue _ (PNum Z 311%Z) en).
+  exists C en, ccompile binop unop witness_body witness_final = Some C /\ length C = 53 /\
+               z_es_run 100 witness_body witness_final = Some (OValue _ (PNum Z 309%Z) en) /\
+               z_machine 1000 C (machine_init Z) = Some (OValue _ (PNum Z 309%Z) en).
 Proof.
   split; [intros; split; reflexivity|]. split; [intros x y; destruct (Z.ltb_spec x y), (Z.eqb_spec x y), (Z.ltb_spec y x); cbn; try reflexivity; lia|].
   split; [intros x y H; apply Z.ltb_lt in H; apply Z.eqb_neq; lia|].
